@@ -217,7 +217,7 @@ def _parse_tlc(r):
     for line in r.out.split("\n"):
         if "Action property" in line and "violated" in line:
             r.violated.append(line.strip())
-        if "Temporal properties were violated" in line:
+        if "Temporal properties were violated" in line or ("Temporal property" in line and "was violated" in line):
             r.violated.append("temporal")
         if line.startswith("<<") or line.startswith('"'):
             r.prints.append(line)
